@@ -17,6 +17,7 @@ from vf.rigs.world import fault_at
 from vf.runner import Ob
 
 LEVEL = "other"
+TECHNIQUE = ('symx: symbolic fault position / solver-chosen damaged object over the real collector; fail-closed assertions per path; concrete replay')
 EXPLANATION = (
     "Bounded symbolic execution (symx/z3) of the real collector with a symbolic fault position over its whole trace "
     "of storage calls, and with a solver-chosen damaged object for each damage class; per path the fail-closed "
